@@ -220,10 +220,77 @@ def install(m, toy):
     def pget(ptr, what='operand'):
         v = m.load(ptr)
         if not isinstance(v, X.Abs):
-            raise X.AbstractionBreach("point %r" % (v,))
+            return dematerialize(v)
         if v.v is INVALID or (isinstance(v.v, str)):
             raise X.GoPanic("secp256k1: use of uninitialized Point")
         return v.v
+
+    # ---- coordinate-level image of a point, for code of the current tree that reaches below the Point API (a new Point method written
+    # over x, y, z; a raw coordinate copy): the abstract group element k is replaced, on demand, by an arbitrary projective
+    # representative (lam*x_k, lam*y_k, lam) resp. (0, lam, 0) over the toy field, field.Element methods are interpreted mod p', and the
+    # real code runs on it; when such a point flows back into the Point API it must be a valid point of the toy curve (obligation).
+    from . import fieldalg as FA
+    alg = FA.ToyField(p)
+    nmat = [0]
+
+    mat_cache = {}
+
+    def materialize(node):
+        # one representative per abstract value: reading x and z of the same stored point must see the same scaling
+        hit = mat_cache.get(id(node))
+        if hit is not None and hit[0] is node:
+            return hit[1]
+        tree = materialize1(node)
+        mat_cache[id(node)] = (node, tree)
+        return tree
+
+    def materialize1(node):
+        if node.v is INVALID or isinstance(node.v, str):
+            z = X.Abs('fe', 0)
+            return [[], z, X.Abs('fe', 0), X.Abs('fe', 0), False]
+        nmat[0] += 1
+        lam = tm.var('lam_pt%d' % nmat[0], W)
+        m.ctx.assume(tm.band(tm.bnot(tm.eq(lam, 0, W)), tm.ult(lam, p, W)))
+        k = node.v
+        if isinstance(k, tm.T):
+            isid = tm.eq(k, 0, W)
+            x = tm.ite(isid, 0, alg.mul(lam, toy.X(k)), W)
+            y = tm.ite(isid, lam, alg.mul(lam, toy.Y(k)), W)
+            z = tm.ite(isid, 0, lam, W)
+        elif k == 0:
+            x, y, z = 0, lam, 0
+        else:
+            x, y, z = alg.mul(lam, toy.mult[k][0]), alg.mul(lam, toy.mult[k][1]), lam
+        return [[], X.Abs('fe', x), X.Abs('fe', y), X.Abs('fe', z), True]
+
+    def dematerialize(v):
+        if not (isinstance(v, (list, tuple)) and len(v) == 5):
+            raise X.AbstractionBreach("point %r" % (v,))
+        if v[4] is False:
+            raise X.GoPanic("secp256k1: use of uninitialized Point")
+        if v[4] is not True:
+            raise X.Unsupported("symbolic isValid flag")
+        x, y, z = [FA.leaf_value(c) for c in v[1:4]]
+        zi = alg.inv(z)
+        on, k = toy.on_curve(alg.mul(x, zi), alg.mul(y, zi))
+        isid = tm.eq(z, 0, W)
+        valid = tm.ite(isid, tm.band(tm.eq(x, 0, W), tm.bnot(tm.eq(y, 0, W))), on, 0)
+        m.ctx.check(valid, 'bv:coordinate-level-point-is-on-the-curve-or-the-identity')
+        return tm.ite(isid, 0, k, W)
+
+    def enable_coordinate_image():
+        FA.install(m, alg, {ROOT + 'feGX': toy.G[0], ROOT + 'feGY': toy.G[1], ROOT + 'feN': toy.n})   # constants mapped by role; b, 3b are read from the tree
+        fe_merge = m.abs_merge
+
+        def merge2(c, a, b):
+            if a.kind == 'fe' and b.kind == 'fe':
+                return fe_merge(c, a, b)
+            if a.kind == 'pt' and b.kind == 'pt':
+                return merge(c, a, b)
+            raise X.Unsupported("merge of %r / %r" % (a, b))
+        m.abs_merge = merge2
+        m.abs_materialize = dict(m.abs_materialize or {})
+        m.abs_materialize['pt'] = materialize
 
     def pset(ptr, k):
         m.store(ptr, X.Abs('pt', k))
@@ -236,6 +303,7 @@ def install(m, toy):
     def merge(c, a, b):
         return X.Abs('pt', tm.ite(c, a.v, b.v, W))
     m.abs_merge = merge
+    enable_coordinate_image()
 
     C[PT + 'Identity'] = lambda m, a: pset(a[0], 0)
     C[PT + 'Generator'] = lambda m, a: pset(a[0], 1)
